@@ -14,6 +14,8 @@ def space(taskname, which, tier, phase):
         t = base.load(taskname)
         if which == "edge":       # optional smaller space for two-execution relations (C08/C09)
             fn = getattr(t, "edge_space", None) or t.pair_space
+        elif which == "range":    # optional larger space for the model-free range check (C01)
+            fn = getattr(t, "range_space", None) or t.pair_space
         else:
             fn = t.pair_space if which == "pair" else t.single_space
         _SPACE_CACHE[key] = fn(tier, phase)
@@ -28,7 +30,7 @@ def shard_plan(taskname, which, tier, phase, nshards):
 
 
 def case_of(task, func, state, cfg, which="pair"):
-    if which == "pair":
+    if which in ("pair", "range", "edge"):
         return {"kind": "pair", "task": task.name, "func": func.name, "ref": state[0], "est": state[1],
                 "cfg": dict(cfg)}
     return {"kind": "single", "task": task.name, "func": func.name, "x": state, "cfg": dict(cfg)}
